@@ -81,6 +81,9 @@ def run_(tier):
         for extra in (None, {"ondelete": "nil"}):
             if not hung():
                 c.replay("lru", e, variant=variant, extra=extra)
+        if variant == "cache" and not hung():
+            # the same behaviours on a cache whose values are pointers, every third creation succeeding with nil
+            c.replay("lru", e, variant="ptr")
     c.exhaustive = True
     if hung():
         return c.finish(rule="stopped at the first call that did not return")
